@@ -3,6 +3,7 @@ CONSTANTS
   Names <- TNames
   Passwords <- TPasswords
   BlobSlots <- TSlots
+  GivenKeys <- TGiven
 INVARIANT Report
 POSTCONDITION AllConsumed
 CHECK_DEADLOCK FALSE
